@@ -159,6 +159,8 @@ type FnV struct {
 	curWriteTarget ssa.Value
 	curWriteKey string
 	callFlags map[string][]string
+	guardedFields map[ssa.Value]guardedField
+	guardedSlices map[ssa.Value]string
 	published []publishedRef
 	ownRecover bool
 	pendingOrder []string
@@ -674,6 +676,29 @@ func (fv *FnV) run() (err error) {
 			}
 		}
 	}
+	// the same for the mutex field that a `field S.f guarded_by m` declaration names, of every *S parameter
+	for _, fd := range fv.g.fieldsDecl {
+		for _, p := range fn.Params {
+			pt, ok := p.Type().Underlying().(*types.Pointer)
+			if !ok {
+				continue
+			}
+			nt, ok := types.Unalias(pt.Elem()).(*types.Named)
+			if !ok || nt.Obj().Name() != fd.Struct {
+				continue
+			}
+			stt, ok := nt.Underlying().(*types.Struct)
+			if !ok {
+				continue
+			}
+			for i := 0; i < stt.NumFields(); i++ {
+				if stt.Field(i).Name() == fd.Mutex {
+					m := fv.ptrRef(fv.fieldPtr(fv.ptrOf(p), pt.Elem(), fd.Mutex, stt.Field(i).Type()))
+					fv.assume(st, eq(sel(fv.heapGet(st, "G|held"), m), "0"))
+				}
+			}
+		}
+	}
 	// requires
 	if fv.k != nil {
 		env := fv.contractEnv(st, st, nil)
@@ -730,6 +755,13 @@ func (fv *FnV) loopBinding() {
 	for k, cl := range fv.k.Unconditional {
 		report(k, cl, "unconditional")
 	}
+}
+
+type guardedField struct {
+	decl *FieldDecl
+	base ssa.Value
+	st   *types.Struct
+	typ  types.Type
 }
 
 type unsupported string
